@@ -521,6 +521,7 @@ class HostConnection(object):
                 # the pool was shut down while the replacement was being opened
                 self._connection = None
                 conn.close()
+                connection.close()
                 return
         except Exception:
             log.warning("Failed reconnecting %s. Retrying." % (self.host.endpoint,))
@@ -529,7 +530,8 @@ class HostConnection(object):
             with connection.lock:
                 with self._lock:
                     if connection.orphaned_threshold_reached:
-                        if connection.in_flight == len(connection.orphaned_request_ids):
+                        if connection.in_flight == len(connection.orphaned_request_ids) or self.is_shutdown:
+                            # (a pool that was shut down meanwhile will not empty its trash again)
                             connection.close()
                         else:
                             self._trash.add(connection)
